@@ -17,7 +17,7 @@ RULE = (
     "selector value, i.e. every payload-less union arm), all command codes x directions x configurations (sessions, "
     "encrypted parameters, failed responses) and the captured corpus; per input: decoder object vs events_to_obj, "
     "obj_to_events of both vs the decoded events (length, path, declared type identity, value, value class), re-encoded "
-    "bytes, Canonical from bytes and from the object; distinct = distinct (type/code, configuration, arms, event count) cases"
+    "bytes, Canonical from bytes (lazy and eager; events first, object first, each read twice) and from the object; distinct = distinct (type/code, configuration, arms, event count) cases"
 )
 ASSUMPTIONS = ["equality is the library's own == on the dataclass objects and on MarshalEvent"]
 
@@ -110,19 +110,42 @@ def check(case, rec):
         kw = dict(format_in=Binary, tpm_type=TR.type_by_name(case.t), abort_on_error=True)
         if cc is not None:
             kw["command_code"] = cc
+        # the facade is used in every order a caller can use it: events first, object first, each read
+        # twice, lazy and eager
+        # (iter(Canonical) raises TypeError on the pinned tree - __iter__ returns a list; no property speaks about it)
+        ORDERS = (("events", "object"), ("object", "events"), ("events", "events", "object"), ("object", "object", "events"))
+        n_can = rec.counters.get("canonical_from_bytes", 0)
         if case.enc is None:
-            can = Canonical(case.d, **kw)
-            d = ev_diff(list(can.events), events)
-            if d:
-                out.append(("canonical", "events-from-bytes", f"Canonical(bytes).events differ at #{d[0]}: {d[1]}"))
-            if not (can.object == obj_dec):
-                out.append(("canonical", "object-from-bytes", "Canonical(bytes).object != decoder object"))
+            for lazy in (True, False):
+                for order in (ORDERS if n_can % 3 == 0 else ORDERS[n_can % 2 :: 2]):
+                    can = Canonical(case.d, lazy=lazy, **kw)
+                    label = f"lazy={lazy}, reads: {' then '.join(order)}"
+                    for what in order + ("events", "object"):
+                        if what == "object":
+                            if not (can.object == obj_dec):
+                                out.append(("canonical", f"object-from-bytes:{'-'.join(order)}", f"Canonical(bytes).object != decoder object ({label})"))
+                                break
+                        else:
+                            got = list(can.events) if what == "events" else list(iter(can))
+                            d = ev_diff(got, events)
+                            if d:
+                                out.append(("canonical", f"events-from-bytes:{'-'.join(order)}", f"Canonical(bytes).{what if what == 'events' else '__iter__()'} differ at #{d[0]}: {d[1]} ({label})"))
+                                break
+                    rec.count("canonical_access_orders")
             rec.count("canonical_from_bytes")
         if obj_dec is not None:
-            can2 = Canonical(obj_dec)
-            d = ev_diff(list(can2.events), events)
-            if d:
-                out.append(("canonical", f"events-from-object:{absent_kind(case, d[0], events)}", f"Canonical(object).events differ from the decoded events at #{d[0]}: {d[1]}"))
+            for order in (("events", "object"), ("object", "events")):
+                can2 = Canonical(obj_dec)
+                for what in order + ("events",):
+                    if what == "object":
+                        if not (can2.object == obj_dec):
+                            out.append(("canonical", "object-from-object", f"Canonical(object).object != the object it was made from (reads: {order})"))
+                            break
+                    else:
+                        d = ev_diff(list(can2.events), events)
+                        if d:
+                            out.append(("canonical", f"events-from-object:{absent_kind(case, d[0], events)}", f"Canonical(object).events differ from the decoded events at #{d[0]}: {d[1]} (reads: {order})"))
+                            break
             rec.count("canonical_from_object")
     except StopIteration:
         pass
